@@ -512,6 +512,38 @@ def rw_R11_map_collect(text, log, where):
         text = text[:k] + new + text[end:]
 
 
+def rw_R11b_iter_map_collect(text, log, where, ret_type=None):
+    """S.iter().map(|&x| E).collect() over a slice of Copy items -> index loop pushing E in order (definition of map-collect)"""
+    n = 0
+    while True:
+        masked = mask_code(text)
+        m = re.search(r'\.\s*iter\(\)\s*\.\s*map\s*\(\s*\|\s*&', masked)
+        if not m:
+            return text
+        o = masked.index('(', masked.index('map', m.start()))
+        c = match_close(masked, o)
+        clo = text[o + 1:c].strip()
+        mc = re.match(r'\|\s*&\s*([A-Za-z_][A-Za-z_0-9]*)\s*\|\s*(.*)$', clo, flags=re.S)
+        if not mc:
+            raise ExtractError('R11b: unexpected closure in iter().map() in ' + where)
+        tail = re.match(r'\s*\.\s*collect\s*(::\s*<[^()]*>)?\s*\(\s*\)', masked[c + 1:])
+        if not tail:
+            raise ExtractError('R11b: iter().map() not followed by collect() in ' + where)
+        end = c + 1 + tail.end()
+        k = receiver_start(masked, m.start())
+        recv = text[k:m.start()].strip()
+        n += 1
+        # when the expression is the function's tail expression its type is the declared return type (needed by loop clauses)
+        ann = ''
+        if ret_type and re.match(r'Vec\s*<', ret_type) and re.fullmatch(r'[\s}]*', masked[end:]):
+            ann = ': ' + ret_type
+        new = ('{ let vs%d_ = %s; let mut outs%d_%s = Vec::new(); let mut is%d_: usize = 0; while is%d_ < vs%d_.len() '
+               '{ let %s = vs%d_[is%d_]; let es%d_ = %s; outs%d_.push(es%d_); is%d_ += 1; } outs%d_ }'
+               % (n, recv, n, ann, n, n, n, mc.group(1), n, n, n, mc.group(2).strip(), n, n, n, n))
+        log.append({'rule': 'R11', 'where': where, 'before': text[k:end], 'after': new})
+        text = text[:k] + new + text[end:]
+
+
 def rw_R24_flat_map_collect(text, log, where):
     """V.iter().flat_map(|x| F).collect() -> loop appending F for each element in order (definition of flat_map-collect)"""
     while True:
@@ -565,6 +597,15 @@ def rw_R12_retain(text, log, where):
     predicate that does not panic); removes the closure capturing &mut self that Verus cannot type"""
     while True:
         masked = mask_code(text)
+        # retain(f) with a named predicate value: the same loop, calling f on a reference to each element
+        mn = re.search(r'\b([a-z_][A-Za-z_0-9]*)\s*\.\s*retain\s*\(\s*([a-z_][A-Za-z_0-9]*)\s*\)\s*;', masked)
+        if mn:
+            v, fname = mn.group(1), mn.group(2)
+            new = ('{ let mut kept_ = Vec::new(); let mut ir_: usize = 0; while ir_ < %s.len() '
+                   '{ if %s(&%s[ir_]) { kept_.push(%s[ir_]); } ir_ += 1; } %s = kept_; }' % (v, fname, v, v, v))
+            log.append({'rule': 'R12', 'where': where, 'before': text[mn.start():mn.end()], 'after': new})
+            text = text[:mn.start()] + new + text[mn.end():]
+            continue
         m = re.search(r'\b([a-z_][A-Za-z_0-9]*)\s*\.\s*retain\s*\(\s*\|\s*([A-Za-z_][A-Za-z_0-9]*)\s*\|', masked)
         if not m:
             return text
@@ -770,9 +811,13 @@ def rw_R13_oncelock(body, log, where, table):
         key = m.group(1)
         if key not in table:
             raise ExtractError('R13: no accessor registered for static %s (%s)' % (key, where))
+        init = ''.join(m.group(2).split())
+        allowed = table.get(key + '::inits')
+        if allowed is not None and init not in allowed:
+            raise ExtractError('R13: static %s initialised by `%s` in %s, not by the verified initialiser (%s)' % (key, init, where, ' | '.join(allowed)))
         log.append({'rule': 'R13', 'where': where, 'before': m.group(0), 'after': table[key]})
         return table[key]
-    body = re.sub(r'\b([A-Z_]+)\s*\.\s*get_or_init\s*\(\s*[A-Za-z_:]+(?:\s*::\s*[A-Za-z_]+)*\s*\)', repl, body)
+    body = re.sub(r'\b([A-Z_]+)\s*\.\s*get_or_init\s*\(\s*([A-Za-z_:]+(?:\s*::\s*[A-Za-z_]+)*)\s*\)', repl, body)
     new = re.sub(r'assert!\(\s*[A-Z_]+\.get\(\)\.is_none\(\)\s*\)\s*;', '', body)
     if new != body:
         log.append({'rule': 'R13a', 'where': where, 'dropped': 'assert!(STATIC.get().is_none())'})
@@ -805,6 +850,7 @@ def apply_text_rules(text, log, where, opts):
     text = rw_R18_to_strings(text, log, where)
     text = rw_R19_join(text, log, where)
     text = rw_R11_map_collect(text, log, where)
+    text = rw_R11b_iter_map_collect(text, log, where, opts.get('ret_type'))
     text = rw_R24_flat_map_collect(text, log, where)
     text = rw_R25_filter_collect(text, log, where)
     text = rw_R12_retain(text, log, where)
@@ -870,8 +916,11 @@ class Unit:
                 i += 1
             elif st.startswith('//@STATIC'):
                 # //@STATIC NAME => accessor_expr
-                mm = re.match(r'//@STATIC\s+(\S+)\s*=>\s*(.*)$', st)
+                # optionally `:: Init1|Init2`: the only initialiser expressions the accessor's contract stands for
+                mm = re.match(r'//@STATIC\s+(\S+)\s*=>\s*(.*?)(?:\s+::\s+(.*))?$', st)
                 self.statics[mm.group(1)] = mm.group(2).strip()
+                if mm.group(3):
+                    self.statics[mm.group(1) + '::inits'] = [x.strip() for x in mm.group(3).split('|')]
                 i += 1
             elif st.startswith('//@RSUBST'):
                 # //@RSUBST key :: python-regex ==> replacement with \\1.. backreferences (pattern-shaped instances of a rule)
@@ -1007,6 +1056,12 @@ class Unit:
                 sig = rx.sub(lambda m: after, sig)
             elif ('sig:' + name) in self.subst_rules and (before, after) in self.subst_rules['sig:' + name]:
                 raise ExtractError('signature substitution anchor lost in %s: %r' % (where, before))
+        # R27: a function-pointer parameter `p: fn(A) -> B` is taken as `p: impl Fn(A) -> B` (every fn pointer is an Fn; Verus
+        # has no function-pointer types). Only the parameter's type changes; calls through it are unchanged.
+        sig_r27 = re.sub(r'(:\s*)fn(\s*\([^()]*\)\s*->\s*[A-Za-z_][A-Za-z_0-9<>]*)', r'\1impl Fn\2', sig)
+        if sig_r27 != sig:
+            self.log.append({'rule': 'R27', 'where': where, 'before': sig.strip()[:200], 'after': sig_r27.strip()[:200]})
+            sig = sig_r27
         sig0 = sig
         sig = re.sub(r'\bconst\s+(unsafe\s+)?fn\b', r'\1fn', sig)
         if sig != sig0:
@@ -1022,7 +1077,9 @@ class Unit:
             sig = re.sub(r'\bSelf\b', opts['selfty'], sig)
             self.log.append({'rule': 'R5', 'where': where, 'note': 'trait impl method extracted as a plain function; Self -> ' + opts['selfty']})
         if 'ret' in opts:
-            m = re.search(r'->\s*(.*)$', sig, flags=re.S)
+            m = None
+            for m in re.finditer(r'->\s*((?:(?!->).)*)$', sig, flags=re.S):
+                pass
             if not m:
                 raise ExtractError('ret= given but %s has no return type' % where)
             sig = sig[:m.start()] + '-> (%s: %s)' % (opts['ret'], m.group(1).strip())
@@ -1037,7 +1094,10 @@ class Unit:
             outp.append(fbody[lastp:]); fbody = ''.join(outp)
         sig, fbody = rw_R15_mut_self(sig, fbody, self.log, where)
         sig, fbody = rw_mut_param(sig, fbody, self.log, where)
-        o2 = {'subst': self.subst_rules.get(name, []) + self.subst_rules.get(where, []) + (self.subst_rules.get(where.replace(' ', '_'), []) if ' ' in where else []),
+        mrt = None
+        for mrt in re.finditer(r'->\s*(?:\(\s*[a-z_]+\s*:\s*)?((?:(?!->).)*?)\)?\s*$', sig, flags=re.S):
+            pass
+        o2 = {'ret_type': mrt.group(1).strip() if mrt else None, 'subst': self.subst_rules.get(name, []) + self.subst_rules.get(where, []) + (self.subst_rules.get(where.replace(' ', '_'), []) if ' ' in where else []),
               'subst_opt': self.subst_rules.get('*', [])}
         for rx_, rep_ in self.rsubst_rules.get(name, []):
             if not re.search(rx_, fbody):
